@@ -1,7 +1,7 @@
 """Runs the real get_combinations_from_columns and mixed_rank_graph (serial fake pool) on generated frames.
 Under /venv/bin/python with PYTHONPATH=$OUTRANK_REPO.  JSON on stdin, one line `@@RESULT <json>` on stdout.
 
-case = {cols, label, heuristic, tro, cap, batches, nrows, data_seed}
+case = {cols, label, heuristic, tro, cap, batches, nrows, data_seed[, prelude: [case...]][, light]}
 result = {ok, cands: [[a, b]], cap_after_cands, batches: [{rows: [[a, b, score_key]], cap_after, sampled: [[a, b]] | None}], error}
 score_key = "0" for a score equal to 0.0, otherwise the hex of the IEEE-754 bits (equal keys <=> bit-identical scores).
 """
@@ -110,8 +110,10 @@ def as_pair(t):
     return [str(t[0]), str(t[1])]
 
 
-out = []
-for case in payload['cases']:
+ROW_RECORD_LIMIT = 6000   # rows recorded per batch; the true number is always reported in nrows
+
+
+def run_case(case):
     reset_globals()
     res = {'ok': True, 'cands': None, 'cap_after_cands': None, 'batches': [], 'error': None}
     try:
@@ -130,14 +132,25 @@ for case in payload['cases']:
             rows = summary.triplet_scores
             b = {'cap_after': int(args.combination_number_upper_bound), 'nrows': len(rows)}
             if not light:
-                b['rows'] = [[str(r[0]), str(r[1]), score_key(r[2])] for r in rows]
-                if any(len(r) != 3 for r in rows):
+                limit = max(ROW_RECORD_LIMIT, 0)
+                rec = rows[:limit]
+                if any(len(r) != 3 for r in rec):
                     raise ValueError('row is not a triplet')
+                b['rows'] = [[str(r[0]), str(r[1]), score_key(r[2])] for r in rec]
+                b['truncated'] = len(rows) > len(rec)
                 b['sampled'] = _sampled[-1] if len(_sampled) == 1 else None
             res['batches'].append(b)
     except Exception as e:  # a recorded outcome; the harness decides
         res['ok'] = False
         res['error'] = '%s: %s' % (type(e).__name__, e)
-    out.append(res)
+    return res
+
+
+out = []
+for case in payload['cases']:
+    # a case may carry the process history that precedes it ("prelude": earlier cases run in the same interpreter)
+    for pre in case.get('prelude') or []:
+        run_case(pre)
+    out.append(run_case(case))
 reset_globals()
 print('@@RESULT ' + json.dumps({'results': out}))
